@@ -404,6 +404,9 @@ func (c *Ctx) baseDesc(v ssa.Value, d int) string {
 		if call, ok := x.Tuple.(*ssa.Call); ok {
 			return "result#" + itoa(int64(x.Index)) + " of call:" + c.P.CalleeName(call)
 		}
+		if _, ok := x.Tuple.(*ssa.Next); ok {
+			return "range-value"
+		}
 		return "extract"
 	case *ssa.MakeSlice:
 		return "make:" + c.P.TypeShort(x.Type())
